@@ -1,4 +1,8 @@
 (* C08 — Panics, deferred calls, recover and run-time errors follow the spec.
+   Where a finding has since been repaired in /repo the model keeps BOTH shapes; the check probes the
+   source on every run (Gen/C08_Consts: gen_goexit_rethrow, gen_substring_defaults_high,
+   gen_string_index_checked) and compares the real code with the shape it finds.  The _refuted theorems
+   below are about the unrepaired shape; still open: replaced-panic-resurrected-after-recover.
    ONLY property theorems (closed by [exact lemma]) + Print Assumptions.
    Models: Model/C08_Guards.v (part A), Model/C08_Panic.v (part B).
    Tie: harness/py/props/c08.py. *)
